@@ -230,6 +230,24 @@ def _store_array(
     identity = lambda a: a
     blockwise_kwargs = blockwise_kwargs or {}
     if region is None or all(r == slice(None) for r in region):
+        if is_storage_array(target):
+            if source.shape != target.shape:
+                raise ValueError(
+                    f"Source array shape {source.shape} does not match target shape {target.shape}"
+                )
+            if getattr(target, "shards", None) is None:
+                try:
+                    target_chunks = target.chunks
+                except NotImplementedError:
+                    # rectilinear chunk grids don't support .chunks
+                    target_chunks = None
+                if target_chunks is not None and not all(
+                    sc % tc == 0 or sc >= n
+                    for n, sc, tc in zip(source.shape, source.chunksize, target_chunks)
+                ):
+                    # a source chunk would only partially cover some target chunks, so
+                    # rechunk to the target chunks to make every task write whole chunks
+                    source = source.rechunk(target_chunks)
         if not isinstance(source._zarray, LazyZarrArray):
             ind = tuple(range(source.ndim))
             return blockwise(
